@@ -132,13 +132,13 @@ def _fn(name):
     return getattr(mp, name, None) or getattr(sp, name)
 
 
-def ask(ctx, name, args, want, cls, size, cplx, kwargs=None, nt=True):
+def ask(ctx, name, args, want, cls, size, cplx, kwargs=None, nt=True, mech=None):
     got = ctx.call(_fn(name), *args, **(kwargs or {}))
     if got is FAILED:
         return
     if isinstance(got, tuple):
         got = got[0]
-    ctx.check("pred:" + name, bool(got) == want, sig=(cls, size, cplx), nt=nt, mech=f"{name}:wrong-verdict[{cls}]",
+    ctx.check("pred:" + name, bool(got) == want, sig=(cls, size, cplx), nt=nt, mech=mech or f"{name}:wrong-verdict[{cls}]",
               detail={"class": cls, "size": size, "complex": cplx, "want": want, "got": bool(got), "args": args})
     if cls.startswith("pos"):
         ctx.sample("pred:" + name, {"class": cls, "size": size, "complex": cplx, "verdict": bool(got)})
@@ -551,7 +551,12 @@ def _p_is_linearly_independent(ctx, r, rng):
     ask(ctx, "is_linearly_independent", (vecs,), True, "pos", d, cplx, nt=False)
     ask(ctx, "is_linearly_independent", ([gen.haar(rng, d, real=not cplx) @ v for v in vecs],), True, "pos-rotated", d, cplx)
     dep = vecs + [sum((i + 1) * v for i, v in enumerate(vecs))]
-    ask(ctx, "is_linearly_independent", (dep,), False, "neg-exact-combination", d, cplx)
+    # numpy's default rank threshold (sigma_max * max(M, N) * eps) is occasionally below the rounding noise of the SVD itself: an exactly dependent
+    # set whose smallest singular value comes out as ~1.5e-15 is then counted as independent.  Classified by that mechanism (known finding).
+    sv = np.linalg.svd(np.column_stack(dep), compute_uv=False)
+    noise = sv[-1] <= 1e-13 * sv[0] and sv[-1] > sv[0] * max(np.column_stack(dep).shape) * np.finfo(float).eps
+    ask(ctx, "is_linearly_independent", (dep,), False, "neg-exact-combination", d, cplx,
+        mech="is_linearly_independent:dependent-set-declared-independent[rounding-level-singular-value-above-numpy-default-rank-threshold]" if noise else None)
     ask(ctx, "is_linearly_independent", ([gen.rmat(rng, (d,), cplx) for _ in range(d + 1)],), False, "neg-more-than-dimension", d, cplx)
     ask(ctx, "is_linearly_independent", (vecs + [np.zeros(d)],), False, "neg-zero-vector", d, cplx)
 
